@@ -33,6 +33,26 @@ Theorem C35_no_panic : forall nodes es W src o,
 Proof. exact spt_no_panic. Qed.
 Print Assumptions C35_no_panic.
 
+(* Several calls on ONE Topology object: t := NewTopology(nodes, es); t.SPT(s1); t.SPT(s2); ...
+   (spt returns the tree AND the topology the call leaves behind; spt_seq hands it to the next call).
+   SPT does not modify the topology ... *)
+Theorem C35_spt_pure : forall guard o t from, fst (spt guard o t from) = t.
+Proof. exact spt_pure. Qed.
+Print Assumptions C35_spt_pure.
+
+(* ... so every call of every sequence of calls (any sources, the same one twice, each call with its
+   own map order) returns a correct tree for ITS source. *)
+Theorem C35_correct_sequence : forall nodes es W calls,
+  in_domain nodes es W -> no_overflow nodes W ->
+  Forall (fun c => oracle_ok (fst c) /\ In (snd c) nodes) calls ->
+  Forall2 (fun c out => exists spt, out = Ok spt /\
+             NoDup (keys spt) /\ (forall v, In v (keys spt) <-> In v nodes) /\
+             (forall v r, get v spt = Some r -> node_result_ok (graph_of es) (snd c) v r) /\
+             tree_ok spt)
+          calls (run_seq true nodes es calls).
+Proof. exact spt_correct_sequence. Qed.
+Print Assumptions C35_correct_sequence.
+
 (* The two halves of node_result_ok spelled out per node. *)
 Theorem C35_reachable_minimal_unreachable_marked : forall nodes es W src o spt v,
   in_domain nodes es W -> no_overflow nodes W -> In src nodes -> oracle_ok o ->
@@ -86,3 +106,8 @@ Example C35_example_run :
   /\ run true ex_rev ex_nodes ex_edges 0%N = run true ex_id ex_nodes ex_edges 0%N
   /\ run false ex_id ex_nodes ex_edges 0%N = Panic.
 Proof. repeat split; vm_compute; reflexivity. Qed.
+
+Example C35_example_sequence :
+  run_seq true ex_nodes ex_edges [(ex_id, 2); (ex_rev, 0); (ex_id, 2)]%N =
+  [run true ex_id ex_nodes ex_edges 2%N; run true ex_rev ex_nodes ex_edges 0%N; run true ex_id ex_nodes ex_edges 2%N].
+Proof. vm_compute. reflexivity. Qed.
